@@ -20,7 +20,8 @@ type c07Case struct {
 }
 
 var c07Kinds = []string{"caller-error", "duplicate", "empty-value", "missing-fk-target", "unusable-key-empty", "unusable-key-too-large",
-	"veto-create", "veto-update", "veto-delete", "veto-parent-on-child-create", "veto-child-update", "veto-cascaded-delete", "pre-commit-action-error"}
+	"veto-create", "veto-update", "veto-delete", "veto-parent-on-child-create", "veto-child-update", "veto-cascaded-delete", "pre-commit-action-error",
+	"pre-commit-action-error-then-ok-action", "unusable-key-in-patch", "veto-update-in-patch"}
 
 var c07Entries = []string{"update", "nested-update", "batch"}
 
@@ -110,8 +111,24 @@ func failingVariant(kind string, m *kit.Model) (c07Variant, bool) {
 		return &kit.EntSpec{Name: e.Name, Alias: e.Alias, Roles: e.Roles, Note: e.Note + "!", Ref: e.Ref, TagV: e.TagV}
 	}
 	switch kind {
-	case "caller-error", "pre-commit-action-error":
+	case "caller-error", "pre-commit-action-error", "pre-commit-action-error-then-ok-action":
 		return v, true
+	case "unusable-key-in-patch":
+		// a field-restricted update whose first selected field cannot be stored, followed by selected fields that can
+		id, e := anyOf("things")
+		if e == nil {
+			return v, false
+		}
+		sp := specOf(e)
+		sp.Roles = append(append([]string{}, e.Roles...), strings.Repeat("z", 33000))
+		v.failing = &kit.Op{Kind: "patch", Store: "things", ID: id, Spec: sp, Fields: []string{kit.FRoles, kit.FNote, kit.FRef}}
+	case "veto-update-in-patch":
+		id, e := anyOf("targets")
+		if e == nil {
+			return v, false
+		}
+		v.failing = &kit.Op{Kind: "patch", Store: "targets", ID: id, Spec: specOf(e), Fields: []string{kit.FNote, kit.FRoles}}
+		v.arm = [3]string{"targets", id, "updated"}
 	case "duplicate":
 		_, e := anyOf("things")
 		if e == nil {
@@ -254,12 +271,20 @@ func runC07(c c07Case) kit.Result {
 					opErr, opRan, harnessErr = nil, false, nil
 					ctx.AddCommitAction(func() { rec.Add(kit.Event{Type: "commit-action", Style: "failing-tx"}) })
 					upto := pos
-					if kind == "pre-commit-action-error" {
+					preCommit := strings.HasPrefix(kind, "pre-commit-action-error")
+					addFailingAction := func() {
+						ctx.AddPreCommitAction(func(boltz.MutateContext) error { return errInjected })
+						if kind == "pre-commit-action-error-then-ok-action" {
+							// a later action that succeeds must not mask the earlier failure
+							ctx.AddPreCommitAction(func(boltz.MutateContext) error { return nil })
+						}
+					}
+					if preCommit {
 						upto = len(c.Body)
 					}
 					for i, op := range c.Body[:upto] {
-						if i == pos && kind == "pre-commit-action-error" {
-							ctx.AddPreCommitAction(func(boltz.MutateContext) error { return errInjected })
+						if i == pos && preCommit {
+							addFailingAction()
 						}
 						if _, err := w.Exec(ctx, op); err != nil {
 							harnessErr = fmt.Errorf("%s body op %d %s, accepted by the model, failed: %v", label, i, op, err)
@@ -269,9 +294,9 @@ func runC07(c c07Case) kit.Result {
 					switch {
 					case kind == "caller-error":
 						return errInjected
-					case kind == "pre-commit-action-error":
+					case preCommit:
 						if pos >= upto {
-							ctx.AddPreCommitAction(func(boltz.MutateContext) error { return errInjected })
+							addFailingAction()
 						}
 						return nil
 					}
